@@ -201,6 +201,8 @@ def gen_config(cs, tier='quick', force=None):
     on = list(outs)
     c['outputs'] = [on.pop(cs.choose(len(on), 'out')) for _ in range(nout)]
     it = ITER_TABLE_HIP if hip else ITER_TABLE_GEO
+    if tier == 'thorough':
+        it = it + ([64, 100, 200] if hip else [12, 16])
     c['iterations'] = force.get('iterations') or it[cs.choose(len(it), 'iterations')]
     c['W'] = force.get('W') or W_TABLE[cs.choose(len(W_TABLE), 'W')]
     c['np_seed'] = cs.choose(1 << 30, 'np_seed')
